@@ -36,13 +36,13 @@ META = {
                     'the objects keep their relative order across the P orders (only reference positions move)',
                     'the "printed number" clause is checked as self-consistency with the target; whether that number is '
                     'LaTeX\'s is C08 (not applicable)'],
-    'probe_names': ['label_on_empty_caption', 'label_after_closed_inner_env', 'label_on_unnumbered_heading', 'ref_in_title', 'ref_in_footnote', 'forward_ref', 'backward_ref', 'inside_ref', 'two_pending_same_label', 'dangling_ref',
+    'probe_names': ['label_on_empty_caption', 'label_on_display_row', 'label_inside_caption', 'label_after_closed_inner_env', 'label_on_unnumbered_heading', 'ref_in_title', 'ref_in_footnote', 'forward_ref', 'backward_ref', 'inside_ref', 'two_pending_same_label', 'dangling_ref',
                     'pageref', 'label_on_item', 'label_on_caption', 'label_on_theorem', 'unlabelled_between'],
     'shrink_budget': 300,
 }
 
 KINDS = ['section', 'subsection', 'equation', 'item', 'item2', 'figure', 'figure0', 'table', 'theorem', 'lemma', 'prop',
-         'subsubsection', 'paragraph', 'figurec', 'tablec']
+         'subsubsection', 'paragraph', 'figurec', 'tablec', 'captionin', 'align1', 'align2', 'eqnarray1', 'eqnarray2']
 HEADINGS = ('section', 'subsection', 'subsubsection', 'paragraph')
 
 
@@ -194,7 +194,8 @@ def _ref_par(x):
 
 
 def compile_doc(events):
-    lines = ['\\documentclass{article}', '\\newcommand{\\qa}{a}', '\\newtheorem{thm}{Theorem}', '\\newtheorem{lem}[thm]{Lemma}',
+    lines = ['\\documentclass{article}'] + (['\\usepackage{amsmath}'] if any(e[0] == 'OBJ' and e[1]['kind'].startswith('align') for e in events) else []) + [
+             '\\newcommand{\\qa}{a}', '\\newtheorem{thm}{Theorem}', '\\newtheorem{lem}[thm]{Lemma}',
              '\\newtheorem{prop}{Proposition}[subsection]', '\\begin{document}']
     for e in events:
         if e[0] == 'REF':
@@ -240,6 +241,17 @@ def compile_doc(events):
             # the caption sits in an inner environment that is closed again when the \label comes
             env = k[:-1]
             lines.append('\\begin{%s}\\begin{center} %s \\caption{C%s%s}\\end{center}%s %s\\end{%s}' % (env, pre, m, ttl, lab, post, env))
+        elif k == 'captionin':
+            # the label is written INSIDE the caption's argument
+            lines.append('\\begin{figure} %s \\caption{C%s%s %s}%s\\end{figure}' % (pre, m, ttl, lab, post))
+        elif k in ('align1', 'align2', 'eqnarray1', 'eqnarray2'):
+            # a two-row display, both rows numbered (they share the equation counter); the label is on row 1 or row 2
+            env, sep = ('align', '&=') if k.startswith('align') else ('eqnarray', '&=&')
+            row1 = 'a%s\\mbox{%s}' % (sep, m if k.endswith('1') else 'u')
+            row2 = 'c%s\\mbox{%s}' % (sep, m if k.endswith('2') else 'v')
+            lines.append(pre)
+            lines.append('\\begin{%s}%s%s\\\\ %s%s\\end{%s}' % (env, row1, lab if k.endswith('1') else '', row2, lab if k.endswith('2') else '', env))
+            lines.append(post)
         elif k == 'figure0':
             # a float whose caption is EMPTY (the labelled node has no children when later references are read)
             lines.append('\\begin{figure} %s F%s \\caption{}%s %s\\end{figure}' % (pre, m, lab, post))
@@ -267,7 +279,8 @@ def _all_nodes(node, out):
 EXPECT_NODE = {'section': ('section',), 'subsection': ('subsection',), 'equation': ('equation',), 'item': ('item',),
                'figure': ('caption',), 'table': ('caption',), 'theorem': ('thm', 'thmenv'), 'item2': ('item',),
                'lemma': ('lem', 'thmenv'), 'figure0': ('caption',), 'prop': ('prop', 'thmenv'),
-               'subsubsection': ('subsubsection',), 'paragraph': ('paragraph',), 'figurec': ('caption',), 'tablec': ('caption',)}
+               'subsubsection': ('subsubsection',), 'paragraph': ('paragraph',), 'figurec': ('caption',), 'tablec': ('caption',),
+               'captionin': ('caption',), 'align1': ('align',), 'align2': ('ArrayRow',), 'eqnarray1': ('eqnarray',), 'eqnarray2': ('ArrayRow',)}
 
 
 def run_doc(events, objs):
@@ -297,7 +310,7 @@ def run_doc(events, objs):
                 except Exception:
                     txt = ''
                 if ('T' + o['m'] in txt) or ('C' + o['m'] in txt) or (o['kind'] in ('equation', 'item', 'item2', 'theorem', 'lemma', 'prop') and o['m'] in txt.split()) \
-                        or (o['kind'] == 'equation' and o['m'] in txt):
+                        or (o['kind'] in ('equation', 'align1', 'align2', 'eqnarray1', 'eqnarray2') and o['m'] in txt):
                     cands.append(n)
         objnode[o['m']] = cands
     out = {}
@@ -409,6 +422,10 @@ def _probes(ev, objs, refs, info):
                     info['label_on_caption'] = 1
                 if o['kind'] in ('figurec', 'tablec'):
                     info['label_after_closed_inner_env'] = 1
+                if o['kind'] in ('align1', 'align2', 'eqnarray1', 'eqnarray2'):
+                    info['label_on_display_row'] = 1
+                if o['kind'] == 'captionin':
+                    info['label_inside_caption'] = 1
                 if o['kind'] in ('subsubsection', 'paragraph'):
                     info['label_on_unnumbered_heading'] = 1
                 if o['kind'] == 'figure0':
@@ -468,7 +485,11 @@ def expected_numbers(objs):
         if k in ('subsubsection', 'paragraph'):
             out[o['m']] = NO_NUMBER_CHECK      # beyond sec-num-depth: no number is printed
             continue
-        if k in ('figure0', 'figurec'):
+        if k in ('align1', 'align2', 'eqnarray1', 'eqnarray2'):
+            n['equation'] += 2
+            out[o['m']] = str(n['equation'] - (1 if k.endswith('1') else 0))
+            continue
+        if k in ('figure0', 'figurec', 'captionin'):
             k = 'figure'
         if k == 'tablec':
             k = 'table'
